@@ -7,6 +7,7 @@ import (
 	"diagonal.works/b6/encoding"
 	"diagonal.works/b6/ingest"
 	"diagonal.works/b6/verifrt"
+	"github.com/golang/geo/s2"
 )
 
 // Lemmas of the b6vc verifier (/verif). Parameters are universally
@@ -554,13 +555,13 @@ func verifLemma_C37_validate_area_emits_only_valid(s1, s2 ValidationState) {
 // Path mode: lists of two or three elements, values small enough for one-byte
 // varints unless stated; every branch outcome is enumerated.
 
-func verifLemma_C11_mixed_list(r1, r2 Reference, ll LatLng, primary TypeAndNamespace) {
+// The buffer arrives with arbitrary contents (buffers are reused between records).
+func verifLemma_C11_mixed_list(r1, r2 Reference, ll LatLng, primary TypeAndNamespace, buffer [64]byte) {
 	verifrt.Assume(r1.Value < 32 && r2.Value < 32 && r1.TypeAndNamespace < 64 && r2.TypeAndNamespace < 64 && primary < 64)
 	// ReferenceInvald is a package variable initialised to the zero Reference and never assigned
 	verifrt.Assume(ReferenceInvald == Reference{})
 	verifrt.Assume(r1 != ReferenceInvald && r2 != ReferenceInvald)
 	verifrt.Assume(ll.LatE7 > -32 && ll.LatE7 < 32 && ll.LngE7 > -32 && ll.LngE7 < 32)
-	var buffer [64]byte
 	g := ReferencesAndLatLngs{{Reference: r1}, {LatLng: ll}, {Reference: r2}}
 	n := g.Marshal(primary, buffer[0:])
 	var got ReferencesAndLatLngs
@@ -571,8 +572,7 @@ func verifLemma_C11_mixed_list(r1, r2 Reference, ll LatLng, primary TypeAndNames
 	verifrt.Assert(got[1].LatLng == ll && got[1].Reference == ReferenceInvald, "latlng")
 }
 
-func verifLemma_C11_bits(b0, b1, b2, b3, b4, b5, b6, b7, b8, b9 bool) {
-	var buffer [16]byte
+func verifLemma_C11_bits(b0, b1, b2, b3, b4, b5, b6, b7, b8, b9 bool, buffer [16]byte) {
 	in := Bits{b0, b1, b2, b3, b4, b5, b6, b7, b8, b9}
 	n := in.Marshal(buffer[0:])
 	var got Bits
@@ -706,4 +706,23 @@ func verifLemma_C01_from_compact_mixed(r Reference, ll LatLng) {
 	list, ok := e.AnyExpression.(b6.Expressions)
 	verifrt.Assert(ok, "is-a-list")
 	verifrt.Assert(len(list) == 2, "one-expression-per-element")
+}
+
+// An area with two polygons given by path IDs and one given as a lat/lng polygon keeps,
+// per polygon, the path IDs it was given (bounded: this shape; the s2 conversion of the
+// third polygon is outside the verifier and havocked).
+func verifLemma_C01_mixed_area_keeps_path_ids(v1, v2 uint64) {
+	nt := vC08Table()
+	f := ingest.NewAreaFeature(3)
+	f.SetPathIDs(0, []b6.FeatureID{vC37Path(v1)})
+	f.SetPathIDs(1, []b6.FeatureID{vC37Path(v2)})
+	f.SetPolygon(2, &s2.Polygon{})
+	var a Area
+	var buffer [16]byte
+	a.FromFeature(f, nil, nt, buffer[0:])
+	g, ok := a.Polygons.(*AreaGeometryMixed)
+	verifrt.Assert(ok, "mixed-geometry")
+	verifrt.Assert(len(g.Polygons) >= 2, "path-polygons-kept")
+	verifrt.Assert(len(g.Polygons[0].References.Paths) == 1 && g.Polygons[0].References.Paths[0].Value == v1, "first-polygon-keeps-its-path")
+	verifrt.Assert(len(g.Polygons[1].References.Paths) == 1 && g.Polygons[1].References.Paths[0].Value == v2, "second-polygon-keeps-its-path")
 }
